@@ -4,6 +4,10 @@ pub mod util;
 #[cfg(kani)]
 mod c06;
 #[cfg(kani)]
+mod c11;
+#[cfg(kani)]
+mod c11b;
+#[cfg(kani)]
 mod c13;
 #[cfg(kani)]
 mod c14;
@@ -12,10 +16,10 @@ mod c01;
 #[cfg(kani)]
 mod c02;
 #[cfg(kani)]
-mod c03;
+pub mod c03;
 #[cfg(kani)]
 mod c07;
 #[cfg(kani)]
 mod c08;
 #[cfg(kani)]
-mod c10;
+pub mod c10;
